@@ -23,7 +23,9 @@ Record adv := {
   a_nexthop : list nexthop;           (* every tuple of every extended next hop instance *)
   a_extmsg : bool;
   a_refresh : bool;
-  a_enhanced : bool }.
+  a_enhanced : bool;
+  a_paths_limit : list (family * Z);  (* every (family, limit) tuple of every PATHS-LIMIT instance *)
+  a_multisession : bool }.            (* draft-ietf-idr-bgp-multisession capability present *)
 
 Inductive refresh_kind := RefreshAbsent | RefreshNormal | RefreshEnhanced.
 
@@ -37,7 +39,9 @@ Record params := {
   p_nexthop : list nexthop;
   p_refresh : refresh_kind;
   p_msg_size : Z;
-  p_hold : Z }.
+  p_hold : Z;
+  p_paths_limit : family -> option Z;      (* how many paths the peer accepts from us for that family *)
+  p_adv_paths_limit : family -> option Z   (* how many we told the peer we accept *) }.
 
 Definition same_family (a b : family) : bool := (fst a =? fst b) && (snd a =? snd b).
 Definition same_nexthop (a b : nexthop) : bool :=
@@ -63,6 +67,15 @@ Definition send_receive (a : adv) (f : family) : Z :=
 Definition can_receive (x : Z) : bool := (x =? 1) || (x =? 3).
 Definition can_send (x : Z) : bool := (x =? 2) || (x =? 3).
 
+(* draft-abraitis-idr-addpath-paths-limit: a limit of zero is ignored, the first tuple of a family counts;
+   the limit binds the side that sends several paths for that family, so it exists only where ADD-PATH
+   was negotiated in that direction *)
+Fixpoint first_limit (l : list (family * Z)) (f : family) : option Z :=
+  match l with
+  | [] => None
+  | e :: t => if same_family f (fst e) && negb (snd e =? 0) then Some (snd e) else first_limit t f
+  end.
+
 Definition rfc_negotiate (ours theirs : adv) : params :=
   {| p_families := common same_family [] (a_mp ours) (a_mp theirs);
      p_asn4 := speaks_as4 ours && speaks_as4 theirs;
@@ -75,11 +88,32 @@ Definition rfc_negotiate (ours theirs : adv) : params :=
      p_refresh := if a_enhanced ours && a_enhanced theirs then RefreshEnhanced
                   else if a_refresh ours && a_refresh theirs then RefreshNormal else RefreshAbsent;
      p_msg_size := if a_extmsg ours && a_extmsg theirs then 65535 else 4096;
-     p_hold := Z.min (a_hold ours) (a_hold theirs) |}.
+     p_hold := Z.min (a_hold ours) (a_hold theirs);
+     p_paths_limit := fun f =>
+       if can_send (send_receive ours f) && can_receive (send_receive theirs f)
+       then first_limit (a_paths_limit theirs) f else None;
+     p_adv_paths_limit := fun f =>
+       if can_receive (send_receive ours f) && can_send (send_receive theirs f)
+       then first_limit (a_paths_limit ours) f else None |}.
 
 (* RFC 6793 s.4.1/4.2.1: the 2-octet field carries the AS number when it fits, AS_TRANS otherwise *)
 Definition as_consistent (a : adv) : Prop :=
   a_as4 a = [] \/ a_as2 a = (if true_as a <=? 65535 then true_as a else 23456).
+
+(* draft-ietf-idr-bgp-multisession-07 s.6: a speaker that requires session grouping refuses a peer
+   without the capability with "Grouping Required" (2/9); when both have it the sessions must be grouped
+   on the same families, else "Grouping Conflict" (2/8).  The group is the list of families (each once). *)
+Fixpoint same_families (a b : list family) : bool :=
+  match a, b with
+  | [], [] => true
+  | x :: a', y :: b' => same_family x y && same_families a' b'
+  | _, _ => false end.
+Definition ms_faults (ours theirs : adv) : list (Z * Z) :=
+  if a_multisession ours then
+    if a_multisession theirs then
+      (if same_families (a_mp ours) (common same_family [] (a_mp theirs) (a_mp theirs)) then [] else [(2, 8)])
+    else [(2, 9)]
+  else [].
 
 (* The faults of the peer's OPEN that the RFCs require to be answered by a NOTIFICATION, each with its
    OPEN Message Error subcode (RFC 4271 s.6.2, RFC 6286 s.2.2).  `expected` = configured peer AS, 0 = any. *)
@@ -89,4 +123,5 @@ Definition rfc_faults (expected local_id : Z) (ours theirs : adv) : list (Z * Z)
   ++ (if negb (expected =? 0) && negb (p_peer_as p =? expected) then [(2, 2)] else [])
   ++ (if a_id theirs =? 0 then [(2, 3)] else [])
   ++ (if (p_peer_as p =? p_local_as p) && (a_id theirs =? local_id) then [(2, 3)] else [])
-  ++ (if (0 <? a_hold theirs) && (a_hold theirs <? 3) then [(2, 6)] else []).
+  ++ (if (0 <? a_hold theirs) && (a_hold theirs <? 3) then [(2, 6)] else [])
+  ++ ms_faults ours theirs.
